@@ -48,10 +48,12 @@ pub struct Meta {
     pub t: TC,
     pub wide: bool,
     pub full: bool,
+    /// chroma subsampling of the YUV side (2x2 images: (0,0), (1,0) or (1,1))
+    pub ss: (u8, u8),
 }
 impl Meta {
     pub fn json(&self) -> Value {
-        json!({"matrix":format!("{:?}",self.m),"primaries":format!("{:?}",self.p),"transfer":format!("{:?}",self.t),"u16":self.wide,"full":self.full})
+        json!({"matrix":format!("{:?}",self.m),"primaries":format!("{:?}",self.p),"transfer":format!("{:?}",self.t),"u16":self.wide,"full":self.full,"ss":[self.ss.0,self.ss.1]})
     }
     pub fn from_json(v: &Value) -> Meta {
         Meta {
@@ -60,10 +62,11 @@ impl Meta {
             t: tc_from_name(v["transfer"].as_str().unwrap()),
             wide: v["u16"].as_bool().unwrap(),
             full: v["full"].as_bool().unwrap(),
+            ss: v.get("ss").and_then(|s| s.as_array()).map(|a| (a[0].as_u64().unwrap() as u8, a[1].as_u64().unwrap() as u8)).unwrap_or((0, 0)),
         }
     }
     pub fn cfg(&self) -> YuvConfig {
-        cfg_full(if self.wide { 10 } else { 8 }, self.full, (0, 0), self.m, self.t, self.p)
+        cfg_full(if self.wide { 10 } else { 8 }, self.full, self.ss, self.m, self.t, self.p)
     }
 }
 
@@ -71,13 +74,19 @@ const FLOATS: [[f32; 3]; 4] = [[0.1, 0.2, 0.3], [0.9, 0.5, 0.25], [0.5, 0.5, 0.5
 
 fn yuv_src<T: Pixel>(meta: &Meta) -> Yuv<T> {
     let k = if meta.wide { 4u16 } else { 1 };
-    let mk = |vals: [u16; 4]| -> Plane<T> {
-        let v: Vec<T> = vals.iter().map(|&c| T::cast_from(c * k)).collect();
-        let mut p = Plane::from_slice(&v, 2);
-        p.cfg.xdec = 0;
+    let (sx, sy) = (meta.ss.0 as usize, meta.ss.1 as usize);
+    let mk = |vals: [u16; 4], chroma: bool| -> Plane<T> {
+        let (w, h) = if chroma { (2 >> sx, 2 >> sy) } else { (2, 2) };
+        let v: Vec<T> = vals.iter().take(w * h).map(|&c| T::cast_from(c * k)).collect();
+        let mut p = Plane::from_slice(&v, w);
+        if chroma {
+            p.cfg.xdec = sx;
+            p.cfg.ydec = sy;
+        }
         p
     };
-    let frame = Frame { planes: [mk([60, 120, 180, 235]), mk([100, 128, 140, 90]), mk([128, 110, 160, 200])] };
+    // includes foot- and headroom codes (5, 250, 3, 252): where limited-range clamping happens
+    let frame = Frame { planes: [mk([5, 120, 180, 250], false), mk([100, 3, 140, 252], true), mk([250, 110, 2, 200], true)] };
     Yuv::new(frame, meta.cfg()).expect("2x2 4:4:4 frame")
 }
 
@@ -199,12 +208,12 @@ fn check_meta(acc: &mut Acc, idx: u64, meta: &Meta) {
 }
 
 fn check_label_independence(acc: &mut Acc, idx: u64, m: MC, wide: bool, full: bool) {
-    let base = Meta { m, p: CP::BT709, t: TC::BT1886, wide, full };
+    let base = Meta { m, p: CP::BT709, t: TC::BT1886, wide, full, ss: (0, 0) };
     let ref_dec = run_conv(Conv::YuvToRgb, &base);
     let ref_enc = run_conv(Conv::RgbToYuv, &base);
     for &p in ALL_PRIMARIES.iter().filter(|p| **p != CP::Unspecified) {
         for &t in ALL_TRANSFERS.iter().filter(|t| **t != TC::Unspecified) {
-            let meta = Meta { m, p, t, wide, full };
+            let meta = Meta { m, p, t, wide, full, ss: (0, 0) };
             acc.states += 1;
             acc.transitions += 2;
             for (conv, reference) in [(Conv::YuvToRgb, &ref_dec), (Conv::RgbToYuv, &ref_enc)] {
@@ -231,7 +240,10 @@ pub fn all_meta() -> Vec<Meta> {
             for &t in ALL_TRANSFERS.iter().filter(|t| **t != TC::Unspecified) {
                 for wide in [false, true] {
                     for full in [false, true] {
-                        v.push(Meta { m, p, t, wide, full });
+                        // subsampling rotates with storage/range so that every (triple, subsampling)
+                        // pair occurs and the state count stays 3276 x 4 x 2
+                        v.push(Meta { m, p, t, wide, full, ss: (0, 0) });
+                        v.push(Meta { m, p, t, wide, full, ss: if wide == full { (1, 1) } else { (1, 0) } });
                     }
                 }
             }
@@ -266,10 +278,10 @@ pub fn run(_tier: Tier) -> Report {
     });
     rep.acc.merge(acc);
     rep.exhaustive = true;
-    rep.bound = format!("all 14 x 13 x 18 = 3276 fully specified (matrix, primaries, transfer) triples x {{u8/8 bit, u16/10 bit}} x {{limited, full}} = {} metadata states x 10 conversions (5 forward/reverse pairs) on a 2x2 image, plus one metamorphic re-run per error; for each standard matrix all 13 x 18 label pairs for YUV<->RGB", metas.len());
+    rep.bound = format!("all 14 x 13 x 18 = 3276 fully specified (matrix, primaries, transfer) triples x {{u8/8 bit, u16/10 bit}} x {{limited, full}} x {{4:4:4, subsampled}} = {} metadata states x 10 conversions (5 forward/reverse pairs) on a 2x2 image, plus one metamorphic re-run per error; for each standard matrix all 13 x 18 label pairs for YUV<->RGB", metas.len());
     rep.rule = "each conversion runs inside catch_unwind: Ok or an Unsupported* error whose named field is offending (replacing only that field by BT709/BT1886 removes that error); never Unspecified*; forward Ok <=> reverse Ok; YUV<->RGB and (with supported primaries) gamma<->linear return the same error; supported sets always succeed; YUV<->RGB data bit-identical across labels".into();
     rep.assumptions = vec!["'names an offending field' is decided metamorphically (DESIGN 2.3)".into()];
-    rep.guard("all 3276 x 4 metadata states", metas.len() == 3276 * 4);
+    rep.guard("all 3276 x 4 x 2 metadata states", metas.len() == 3276 * 8);
     rep.guard_bucket("Ok");
     rep.guard_bucket("Err(UnsupportedMatrixCoefficients)");
     rep.guard_bucket("Err(UnsupportedColorPrimaries)");
